@@ -24,52 +24,56 @@ def load_anchors():
         return set(json.load(f)["functions"])
 
 
-def _remap_place(pl, lofs):
-    pl["l"] += lofs
+def _remap_place(pl, lofs, ret=None):
+    """ret: local that takes the place of the callee's return slot _0"""
+    if ret is not None and pl["l"] == 0:
+        pl["l"] = ret
+    else:
+        pl["l"] += lofs
     for el in pl["p"]:
         if isinstance(el, dict) and "idx" in el:
             el["idx"] += lofs
 
 
-def _remap_operand(op, lofs):
+def _remap_operand(op, lofs, ret=None):
     if "pl" in op:
-        _remap_place(op["pl"], lofs)
+        _remap_place(op["pl"], lofs, ret)
 
 
-def _remap_rvalue(rv, lofs):
+def _remap_rvalue(rv, lofs, ret=None):
     if "pl" in rv:
-        _remap_place(rv["pl"], lofs)
+        _remap_place(rv["pl"], lofs, ret)
     for k in ("op", "a", "b"):
         if k in rv and isinstance(rv[k], dict) and "k" in rv[k]:
-            _remap_operand(rv[k], lofs)
+            _remap_operand(rv[k], lofs, ret)
     if "ops" in rv:
         for o in rv["ops"]:
-            _remap_operand(o, lofs)
+            _remap_operand(o, lofs, ret)
 
 
-def _remap_stmt(st, lofs):
+def _remap_stmt(st, lofs, ret=None):
     if "pl" in st:
-        _remap_place(st["pl"], lofs)
+        _remap_place(st["pl"], lofs, ret)
     if "rv" in st and isinstance(st["rv"], dict):
-        _remap_rvalue(st["rv"], lofs)
+        _remap_rvalue(st["rv"], lofs, ret)
 
 
-def _remap_term(t, lofs, bofs):
+def _remap_term(t, lofs, bofs, ret=None):
     k = t["k"]
     if "pl" in t:
-        _remap_place(t["pl"], lofs)
+        _remap_place(t["pl"], lofs, ret)
     if k in ("call", "tailcall"):
-        _remap_operand(t["func"], lofs)
+        _remap_operand(t["func"], lofs, ret)
         for a in t["args"]:
-            _remap_operand(a, lofs)
+            _remap_operand(a, lofs, ret)
         if "dest" in t:
-            _remap_place(t["dest"], lofs)
+            _remap_place(t["dest"], lofs, ret)
     if k == "switch":
-        _remap_operand(t["discr"], lofs)
+        _remap_operand(t["discr"], lofs, ret)
         t["targets"] = [[v, b + bofs] for v, b in t["targets"]]
         t["otherwise"] += bofs
     if k == "assert":
-        _remap_operand(t["cond"], lofs)
+        _remap_operand(t["cond"], lofs, ret)
     if t.get("target") is not None and k in ("goto", "drop", "assert", "call"):
         t["target"] += bofs
     if "succ" in t:
@@ -124,19 +128,24 @@ def inline_into(fj, by_path, anchors, stats):
         # blocks
         cont = t["target"]
         dest = t["dest"]
+        # the callee writes its result straight into the destination local (as hand-inlined
+        # code would) unless the destination is a projection or is itself passed as an argument
+        arg_locals = {a["pl"]["l"] for a in t["args"] if "pl" in a}
+        ret = dest["l"] if (not dest["p"] and dest["l"] not in arg_locals) else None
         for gblk in gb["blocks"]:
             nb = copy.deepcopy(gblk)
             for st in nb["stmts"]:
-                _remap_stmt(st, lofs)
+                _remap_stmt(st, lofs, ret)
             nt = nb["term"]
             if nt["k"] == "return":
-                # dest = move _0'; goto continuation
-                nb["stmts"].append({"k": "assign", "pl": copy.deepcopy(dest),
-                                    "rv": {"rv": "use", "op": {"k": "move", "pl": {"l": lofs, "p": []}}},
-                                    "sp": nt.get("sp"), "exp": True})
+                if ret is None:
+                    # dest = move _0'; goto continuation
+                    nb["stmts"].append({"k": "assign", "pl": copy.deepcopy(dest),
+                                        "rv": {"rv": "use", "op": {"k": "move", "pl": {"l": lofs, "p": []}}},
+                                        "sp": nt.get("sp"), "exp": True})
                 nb["term"] = {"k": "goto", "target": cont, "sp": nt.get("sp"), "exp": True}
             else:
-                _remap_term(nt, lofs, bofs)
+                _remap_term(nt, lofs, bofs, ret)
             blocks.append(nb)
         # argument passing
         for i, a in enumerate(t["args"]):
@@ -271,6 +280,223 @@ def desugar_for_each(fj, by_path, stats):
     return changed
 
 
+def _closure_of_local(blocks, by_path, cl_local):
+    aggs = []
+    for blk in blocks:
+        for st in blk["stmts"]:
+            if st["k"] == "assign" and st["pl"]["l"] == cl_local and not st["pl"]["p"]:
+                aggs.append(st)
+    if len(aggs) != 1 or aggs[0]["rv"].get("rv") != "aggregate" or aggs[0]["rv"].get("agg") != "closure":
+        return None
+    g = by_path.get(aggs[0]["rv"].get("fn"))
+    if g is None or g["kind"] != "Closure" or g["body"]["arg_count"] != 2:
+        return None
+    ups = {}
+    for i, o in enumerate(aggs[0]["rv"]["ops"]):
+        if o.get("k") in ("move", "copy"):
+            ups[i] = o["pl"]
+        else:
+            return None
+    return g, ups
+
+
+def _callee_json(fn, full, name, krate, self_ty=None, trait=None, targs=None):
+    v = {"fn": fn, "full": full, "krate": krate, "local": False, "targs": targs or [], "name": name}
+    if trait:
+        v["trait"] = trait
+    if self_ty:
+        v["self_ty"] = self_ty
+    return v
+
+
+def desugar_map_collect(fj, by_path, stats):
+    """`ITER.map(|x| BODY).collect::<Vec<_>>()` and `.collect::<Result<Vec<_>, E>>()`
+    become the loops they abbreviate:
+        let mut v = Vec::new();
+        loop { match ITER.next() { None => break, Some(x) => v.push(BODY) } }        // Vec
+        ... Some(x) => match BODY { Ok(y) => v.push(y), Err(e) => return-value Err(e) }  // Result<Vec, E>
+    (FromIterator for Vec pushes in order; for Result it stops at the first Err
+    and yields it).  The closure body is spliced in with its captures substituted."""
+    body = fj["body"]
+    blocks = body["blocks"]
+    changed = False
+    for bi in range(len(blocks)):
+        b = blocks[bi]
+        t = b["term"]
+        if t["k"] != "call" or b["cleanup"] or t.get("target") is None or t.get("dest") is None or t["dest"]["p"]:
+            continue
+        v = t["func"].get("v") if t["func"].get("k") == "const" else None
+        if not isinstance(v, dict) or v.get("fn") != "std::iter::Iterator::collect" or len(t["args"]) != 1:
+            continue
+        m_op = t["args"][0]
+        if m_op.get("k") != "move" or m_op["pl"]["p"]:
+            continue
+        m_local = m_op["pl"]["l"]
+        # the unique definition of the Map adaptor
+        mdefs = [(i2, blk) for i2, blk in enumerate(blocks) if blk["term"]["k"] == "call" and blk["term"].get("dest") and blk["term"]["dest"]["l"] == m_local and not blk["term"]["dest"]["p"]]
+        if len(mdefs) != 1 or any(st["k"] == "assign" and st["pl"]["l"] == m_local for blk in blocks for st in blk["stmts"]):
+            continue
+        mi, mb = mdefs[0]
+        mt = mb["term"]
+        mv = mt["func"].get("v") if mt["func"].get("k") == "const" else None
+        if not isinstance(mv, dict) or mv.get("fn") != "std::iter::Iterator::map" or len(mt["args"]) != 2 or mt.get("target") is None:
+            continue
+        it_op, cl_op = mt["args"]
+        if cl_op.get("k") != "move" or cl_op["pl"]["p"] or it_op.get("k") != "move" or it_op["pl"]["p"]:
+            continue
+        cg = _closure_of_local(blocks, by_path, cl_op["pl"]["l"])
+        if cg is None:
+            continue
+        g, ups = cg
+        dest_ty = body["locals"][t["dest"]["l"]]["ty"]
+        if dest_ty.get("adt") == "std::vec::Vec":
+            mode, vec_ty = "vec", dest_ty
+        elif dest_ty.get("adt") == "std::result::Result" and dest_ty.get("args") and dest_ty["args"][0].get("adt") == "std::vec::Vec":
+            mode, vec_ty = "result", dest_ty["args"][0]
+        else:
+            continue
+        gb = g["body"]
+        by_ref = gb["locals"][1]["ty"].get("k") == "ref"
+        self_ty = mv.get("self_ty") or (mv.get("targs") or [None])[0]
+        if self_ty is None:
+            continue
+        sp = t.get("sp")
+        lofs = len(body["locals"])
+        nl = len(gb["locals"])
+        # locals: closure's, then &mut iter, Option<Item>, discr, vec, &mut vec, unit, [discr2, payload, err]
+        l_ref, l_opt, l_d, l_vec, l_vref, l_unit, l_d2, l_pay, l_err = [lofs + nl + k for k in range(9)]
+        item_ty = gb["locals"][2]["ty"]
+        ret_ty = gb["locals"][0]["ty"]
+        extra = [
+            {"ty": {"s": "&mut " + self_ty["s"], "k": "ref", "mut": True, "of": self_ty}},
+            {"ty": {"s": "std::option::Option<%s>" % item_ty["s"], "k": "adt", "adt": "std::option::Option", "args": [item_ty]}},
+            {"ty": {"s": "isize", "k": "int"}},
+            {"ty": copy.deepcopy(vec_ty)},
+            {"ty": {"s": "&mut " + vec_ty["s"], "k": "ref", "mut": True, "of": copy.deepcopy(vec_ty)}},
+            {"ty": {"s": "()", "k": "tuple", "args": []}},
+            {"ty": {"s": "isize", "k": "int"}},
+            {"ty": (ret_ty.get("args") or [ret_ty])[0]},
+            {"ty": (ret_ty.get("args") or [ret_ty, ret_ty])[-1]},
+        ]
+        base = len(blocks)
+        i_new, i_head, i_sw, i_item, i_ret, i_ok, i_err, i_exit = [base + k for k in range(8)]
+        bofs = base + 8
+        new_blocks = []
+        try:
+            for gblk in gb["blocks"]:
+                nb = copy.deepcopy(gblk)
+                for st in nb["stmts"]:
+                    _remap_stmt(st, lofs)
+                nt = nb["term"]
+                if nt["k"] == "return":
+                    nb["term"] = {"k": "goto", "target": i_ret, "sp": nt.get("sp"), "exp": True}
+                else:
+                    _remap_term(nt, lofs, bofs)
+                _rewrite_upvars(nb, lofs + 1, by_ref, ups)
+                new_blocks.append(nb)
+        except ValueError:
+            continue
+        body["locals"].extend(copy.deepcopy(l) for l in gb["locals"])
+        body["locals"].extend(extra)
+
+        def P(l, proj=None):
+            return {"l": l, "p": proj or []}
+
+        def assign(pl, rv):
+            return {"k": "assign", "pl": pl, "rv": rv, "sp": sp, "exp": True}
+
+        def goto(tg):
+            return {"k": "goto", "target": tg, "sp": sp, "exp": True}
+
+        vnew = _callee_json("std::vec::Vec::<T>::new", "%s::new" % vec_ty["s"].replace("Vec<", "Vec::<", 1), "new", "alloc")
+        vpush = _callee_json("std::vec::Vec::<T, A>::push", "%s::push" % vec_ty["s"].replace("Vec<", "Vec::<", 1), "push", "alloc")
+        nxt = _callee_json("std::iter::Iterator::next", "<%s as std::iter::Iterator>::next" % self_ty["s"], "next", "core", self_ty=self_ty, trait="std::iter::Iterator", targs=[self_ty])
+        pushed = P(lofs) if mode == "vec" else P(l_pay)
+        blk_new = {"cleanup": False, "stmts": [], "term": {"k": "call", "func": {"k": "const", "ty": "fn", "v": vnew}, "args": [], "dest": P(l_vec), "target": i_head, "sp": sp, "exp": True}}
+        blk_head = {"cleanup": False, "stmts": [assign(P(l_ref), {"rv": "ref", "mut": True, "pl": copy.deepcopy(it_op["pl"])})],
+                    "term": {"k": "call", "func": {"k": "const", "ty": "fn", "v": nxt}, "args": [{"k": "move", "pl": P(l_ref)}], "dest": P(l_opt), "target": i_sw, "sp": sp, "exp": True}}
+        blk_sw = {"cleanup": False, "stmts": [assign(P(l_d), {"rv": "discr", "pl": P(l_opt), "adt": "std::option::Option", "variants": [[0, "None"], [1, "Some"]]})],
+                  "term": {"k": "switch", "discr": {"k": "move", "pl": P(l_d)}, "targets": [[0, i_exit]], "otherwise": i_item, "sp": sp, "exp": True}}
+        blk_item = {"cleanup": False, "stmts": [assign(P(lofs + 2), {"rv": "use", "op": {"k": "move", "pl": P(l_opt, [{"down": 1, "name": "Some"}, {"f": 0, "name": "0", "ty": item_ty["s"], "adt": "std::option::Option"}])}})],
+                    "term": goto(bofs)}
+        if mode == "vec":
+            blk_ret = {"cleanup": False, "stmts": [], "term": goto(i_ok)}
+        else:
+            blk_ret = {"cleanup": False, "stmts": [assign(P(l_d2), {"rv": "discr", "pl": P(lofs), "adt": "std::result::Result", "variants": [[0, "Ok"], [1, "Err"]]})],
+                       "term": {"k": "switch", "discr": {"k": "move", "pl": P(l_d2)}, "targets": [[0, i_ok]], "otherwise": i_err, "sp": sp, "exp": True}}
+        ok_stmts = [] if mode == "vec" else [assign(P(l_pay), {"rv": "use", "op": {"k": "move", "pl": P(lofs, [{"down": 0, "name": "Ok"}, {"f": 0, "name": "0", "adt": "std::result::Result"}])}})]
+        ok_stmts.append(assign(P(l_vref), {"rv": "ref", "mut": True, "pl": P(l_vec)}))
+        blk_ok = {"cleanup": False, "stmts": ok_stmts,
+                  "term": {"k": "call", "func": {"k": "const", "ty": "fn", "v": vpush}, "args": [{"k": "move", "pl": P(l_vref)}, {"k": "move", "pl": pushed}], "dest": P(l_unit), "target": i_head, "sp": sp, "exp": True}}
+        if mode == "vec":
+            blk_err = {"cleanup": False, "stmts": [], "term": {"k": "unreachable", "sp": sp, "exp": True}}
+            blk_exit = {"cleanup": False, "stmts": [assign(copy.deepcopy(t["dest"]), {"rv": "use", "op": {"k": "move", "pl": P(l_vec)}})], "term": goto(t["target"])}
+        else:
+            blk_err = {"cleanup": False, "stmts": [
+                assign(P(l_err), {"rv": "use", "op": {"k": "move", "pl": P(lofs, [{"down": 1, "name": "Err"}, {"f": 0, "name": "0", "adt": "std::result::Result"}])}}),
+                assign(copy.deepcopy(t["dest"]), {"rv": "aggregate", "agg": "adt", "adt": "std::result::Result", "variant": "Err", "vidx": 1, "fields": ["0"], "ops": [{"k": "move", "pl": P(l_err)}]})],
+                "term": goto(t["target"])}
+            blk_exit = {"cleanup": False, "stmts": [
+                assign(copy.deepcopy(t["dest"]), {"rv": "aggregate", "agg": "adt", "adt": "std::result::Result", "variant": "Ok", "vidx": 0, "fields": ["0"], "ops": [{"k": "move", "pl": P(l_vec)}]})],
+                "term": goto(t["target"])}
+        blocks.extend([blk_new, blk_head, blk_sw, blk_item, blk_ret, blk_ok, blk_err, blk_exit])
+        blocks.extend(new_blocks)
+        # the Map adaptor is never built; collect becomes the loop
+        mb["term"] = {"k": "goto", "target": mt["target"], "sp": mt.get("sp"), "exp": True}
+        b["term"] = goto(i_new)
+        g["absorbed"] = True
+        stats.setdefault(fj["path"], []).append(g["path"] + " (map+collect)")
+        changed = True
+    return changed
+
+
+def desugar_struct_update(facts_json):
+    """`S { f: v, ..base }` is MIR `S { f: v, g: move base.g, h: copy base.h, .. }`:
+    rewrite it into what it means, `x = move base; x.f = v`, so that a record
+    built this way from a clone is the clone with one field written (and not a
+    new construction site).  Only when every field not given explicitly comes
+    from the same field of one local of the same type and the explicit
+    operands are plain locals/constants (no evaluation-order concern)."""
+    n = 0
+    for f in facts_json["fns"]:
+        body = f["body"]
+        for b in body["blocks"]:
+            new = []
+            for st in b["stmts"]:
+                rv = st.get("rv") if st.get("k") == "assign" else None
+                if not (isinstance(rv, dict) and rv.get("rv") == "aggregate" and rv.get("agg") == "adt" and not st["pl"]["p"] and len(rv.get("ops", [])) >= 2):
+                    new.append(st)
+                    continue
+                base = None
+                explicit = []
+                ok = True
+                for i, o in enumerate(rv["ops"]):
+                    pl = o.get("pl") if o.get("k") in ("copy", "move") else None
+                    if pl is not None and len(pl["p"]) == 1 and isinstance(pl["p"][0], dict) and pl["p"][0].get("f") == i and pl["p"][0].get("adt") == rv.get("adt"):
+                        if base is None:
+                            base = pl["l"]
+                        elif base != pl["l"]:
+                            ok = False
+                    else:
+                        if pl is not None and pl["p"]:
+                            ok = False
+                        explicit.append(i)
+                if not ok or base is None or not explicit or len(explicit) >= len(rv["ops"]) - 0 or base == st["pl"]["l"]:
+                    new.append(st)
+                    continue
+                if body["locals"][base]["ty"].get("s") != body["locals"][st["pl"]["l"]]["ty"].get("s"):
+                    new.append(st)
+                    continue
+                x = st["pl"]["l"]
+                new.append({"k": "assign", "pl": {"l": x, "p": []}, "rv": {"rv": "use", "op": {"k": "move", "pl": {"l": base, "p": []}}}, "sp": st.get("sp"), "exp": True})
+                for i in explicit:
+                    new.append({"k": "assign", "pl": {"l": x, "p": [{"f": i, "name": rv["fields"][i] if i < len(rv.get("fields", [])) else str(i), "adt": rv.get("adt")}]},
+                                "rv": {"rv": "use", "op": copy.deepcopy(rv["ops"][i])}, "sp": st.get("sp"), "exp": st.get("exp", False)})
+                n += 1
+            b["stmts"] = new
+    return n
+
+
 def desugar_parse(facts_json):
     """`s.parse::<T>()` is, by definition of str::parse, `<T as FromStr>::from_str(s)`"""
     impls = {}
@@ -307,8 +533,9 @@ def inline_helpers(facts_json, anchors=None):
         by_path.setdefault(f["path"], f)
     stats = {}
     desugar_parse(facts_json)
+    desugar_struct_update(facts_json)
     for _ in range(MAX_ROUNDS):
-        if not any([desugar_for_each(f, by_path, stats) for f in facts_json["fns"]]):
+        if not any([desugar_for_each(f, by_path, stats) or desugar_map_collect(f, by_path, stats) for f in facts_json["fns"]]):
             break
     # helpers first, so that nested helpers are already expanded when spliced
     for _ in range(MAX_ROUNDS):
